@@ -122,15 +122,20 @@ Lemma w_esc_facts :
   fst (get_inventory None [(w_idb, [b "objs"; b "x"])] w_esc w_idb) = Corrupt.
 Proof. repeat split; vm_compute; reflexivity. Qed.
 
-(** ** Repaired (01aa490, was known finding layout-path-occupied): layouts 0002/0006
-    map the ids extensions, 0=ocfl_1.1 and (a flat id that is a prefix directory of
-    other objects) a onto paths that exist without being objects *)
+(** ** Repaired (01aa490 + 3802aa0, was known finding layout-path-occupied): layouts
+    0002/0006 map the ids extensions, 0=ocfl_1.1, (a flat id that is a prefix
+    directory of other objects) a and (a path inside another object that holds an
+    inventory file, its version directory) a/b/v1 onto paths that exist without
+    being objects *)
 Lemma w_occupied_facts :
   ~ In (b "extensions") (committed_ids w_good) /\
   object_like w_good [b "extensions"] = false /\
   get_inventory_by_path w_good (b "extensions") [b "extensions"] = NotFound /\
   get_inventory_by_path w_good (b "0=ocfl_1.1") [b "0=ocfl_1.1"] = NotFound /\
   get_inventory_by_path w_good (b "a") [b "a"] = NotFound /\
+  nested_in_object w_good [b "a"; b "b"; b "v1"] = true /\
+  object_like w_good [b "a"; b "b"; b "v1"] = true /\
+  get_inventory_by_path w_good (b "a/b/v1") [b "a"; b "b"; b "v1"] = NotFound /\
   fst (get_inventory (Some (fun i => [i])) [] w_good (b "extensions")) = NotFound /\
   (* a real object at the path still answers, and still refuses another id *)
   get_inventory_by_path w_good (b "one") [b "a"; b "b"] = Found [b "a"; b "b"] (b "one") /\
@@ -141,26 +146,13 @@ Proof.
   intros [H|[H|[]]]; vm_compute in H; discriminate H.
 Qed.
 
-(** historical note: before 01aa490 these lookups were general errors *)
+(** historical note: before 01aa490 / 3802aa0 these lookups were general errors / CorruptObject *)
 Lemma w_occupied_before_fix :
   get_inventory_by_path_before_fix w_good (b "extensions") [b "extensions"] = GenErr /\
   get_inventory_by_path_before_fix w_good (b "0=ocfl_1.1") [b "0=ocfl_1.1"] = GenErr /\
-  get_inventory_by_path_before_fix w_good (b "a") [b "a"] = GenErr.
+  get_inventory_by_path_before_fix w_good (b "a") [b "a"] = GenErr /\
+  get_inventory_by_path_before_fix w_good (b "a/b/v1") [b "a"; b "b"; b "v1"] = Corrupt.
 Proof. repeat split; vm_compute; reflexivity. Qed.
-
-(** ** Known finding layout-path-inside-object: layout 0002, object a/b, never committed id a/b/v1 *)
-Lemma w_inside_facts :
-  ~ In (b "a/b/v1") (committed_ids w_good) /\
-  c19_layout_path_inside_object w_good [b "a"; b "b"; b "v1"] = true /\
-  get_inventory_by_path w_good (b "a/b/v1") [b "a"; b "b"; b "v1"] = Corrupt /\
-  (* not every path inside an object: only those with an inventory file *)
-  c19_layout_path_inside_object w_good [b "a"; b "b"; b "v2"] = false /\
-  get_inventory_by_path w_good (b "a/b/v2") [b "a"; b "b"; b "v2"] = NotFound.
-Proof.
-  split; [|repeat split; vm_compute; reflexivity].
-  change (committed_ids w_good) with [b "one"; b "two*[x]"].
-  intros [H|[H|[]]]; vm_compute in H; discriminate H.
-Qed.
 
 (** ** Repaired (4564259, was known finding stale-id-path-cache): one handle looks A1
     up, purges it, B1 is created at the same object root, A1 is looked up again *)
